@@ -455,14 +455,30 @@ Proof.
   intros bs lo NE F. rewrite (G bs lo NE F true). reflexivity.
 Qed.
 
-(* streaming each consecutive pair of advertised keys covers the range exactly: the per-pair worker outputs concatenate to the in-range snapshot *)
-Theorem c13_advertised V R a b bs : wf_store V -> alpha a -> alpha b -> bcmp a b = Lt ->
-  bs <> [] -> strict_chain (encode a 0 :: bs) -> last bs (encode a 0) = encode b 0 -> Forall border_ok (removelast bs) ->
-  let keys := advertised_keys true (pairs_of (encode a 0 :: bs)) in
+(* Backend.GetPartitions sorts what the engine lists: for any tiling, in any order, the advertised keys are
+   the scanner's adjusted borders *)
+Theorem get_partitions_tiling parts cur a b : valid_parts parts a b ->
+  exists bs, bs <> [] /\ strict_chain (encode a 0 :: bs) /\ last bs (encode a 0) = encode b 0 /\
+             Forall border_ok (removelast bs) /\
+             get_partitions_model parts cur a b = (cur, N.of_nat (length bs), encode a 0 :: adj bs).
+Proof.
+  intros (bs & NE & P & SC & LS & F). exists bs. repeat split; try assumption.
+  unfold get_partitions_model. rewrite (sort_parts_of_perm _ _ P (pairs_strict_sorted bs _ SC)).
+  rewrite (advertised_sorted bs _ NE F). f_equal. f_equal. f_equal.
+  clear. revert bs. intros bs. generalize (encode a 0) as c. induction bs as [|b t IH]; intros c; [reflexivity|].
+  destruct t as [|b2 t']; [reflexivity|]. rewrite pairs_of_cons2. cbn [length]. f_equal. apply IH.
+Qed.
+
+(* streaming each consecutive pair of advertised keys covers the range exactly: for any tiling the engine
+   reports, in any order, the advertised keys ascend, the interior ones are index-record positions, and the
+   per-pair worker outputs concatenate to the in-range snapshot *)
+Theorem c13_advertised V R parts cur a b : wf_store V -> alpha a -> alpha b -> bcmp a b = Lt -> valid_parts parts a b ->
+  let keys := snd (get_partitions_model parts cur a b) in
   chain keys /\ Forall index_pos (interior keys) /\
   concat (map (fun p => wrun_top R (seg V (fst p) (snd p))) (pairs_of keys)) = in_range a b (snapshot V R).
 Proof.
-  intros WF Aa Ab Lab NE SC LS F. cbn zeta. rewrite (advertised_sorted bs _ NE F).
+  intros WF Aa Ab Lab T. cbn zeta.
+  destruct (get_partitions_tiling parts cur a b T) as (bs & NE & SC & LS & F & E). rewrite E. cbn [snd].
   destruct (adj_chain bs a 0 Aa ltac:(reflexivity) SC F) as (CH & IP & LA).
   split; [exact CH|]. split; [exact IP|].
   rewrite (concat_segs R V WF (adj bs) (encode a 0) CH IP (adj_nonempty bs NE)).
